@@ -623,6 +623,44 @@ func optionElemCoverage(ne *ssa.Function, fv ssa.Value) string {
 	if strip(ia.X) == ssa.Value(args) && !fullIndexLoop(ia.Index, ia.X) {
 		return "the loop applying the options does not visit every argument from the first"
 	}
+	// inside the loop every element reaches the option test, except over the edge on which it was recognised as the name
+	test := ta.Block()
+	load := u.Block() // where the element is loaded: the start of the loop body for this element
+	seen := map[*ssa.BasicBlock]bool{load: true}
+	var escapes func(b *ssa.BasicBlock) bool
+	escapes = func(b *ssa.BasicBlock) bool {
+		if b == test {
+			return false
+		}
+		iff := ifOf(b)
+		for i, sx := range b.Succs {
+			if iff != nil && i == 0 {
+				cond, neg := normCond(iff.Cond)
+				if ex, ok := cond.(*ssa.Extract); ok && !neg && ex.Index == 1 {
+					if t2, ok := ex.Tuple.(*ssa.TypeAssert); ok && isStringT(t2.AssertedType) && strip(t2.X) == elem {
+						continue // recognised as the name
+					}
+				}
+			}
+			if sx == test {
+				continue
+			}
+			if !load.Dominates(sx) || sx == load {
+				return true // left the body of this iteration (next element or out of the loop) without the option test
+			}
+			if seen[sx] {
+				continue
+			}
+			seen[sx] = true
+			if escapes(sx) {
+				return true
+			}
+		}
+		return false
+	}
+	if load != test && escapes(load) {
+		return "an element of the argument list can be skipped without having been offered to the option test although it was not recognised as the name (e.g. a leading option of an anonymous New(opt, ...))"
+	}
 	return ""
 }
 
@@ -1528,4 +1566,200 @@ func isExportedRecvOK(fn *ssa.Function) bool {
 		return nt.Obj().Exported()
 	}
 	return true
+}
+
+// ---- package-level functions delegate to their namesake on the default logger (R10.8; shared with C14) ---------------
+//
+// A package-level function that has a namesake among the default logger's methods and calls a method on the default
+// logger must call that namesake with its own arguments: SetSkip calling WithSkip sets the skip on a child nobody uses.
+func packageNamesakes(c *Ctx, p *Prog, rule string) {
+	r := c.R
+	n := 0
+	for _, fn := range p.RepoFuncs() {
+		if fn.Pkg != p.Slog || fn.Signature.Recv() != nil || fn.Parent() != nil || fn.Object() == nil || !fn.Object().Exported() {
+			continue
+		}
+		var onDefault []ssa.CallInstruction
+		for _, cs := range callsIn(fn) {
+			cc := cs.Common()
+			var recvArg ssa.Value
+			name := ""
+			switch {
+			case cc.IsInvoke():
+				recvArg, name = cc.Value, cc.Method.Name()
+			case calleeOf(cs) != nil && calleeOf(cs).Signature.Recv() != nil && len(cc.Args) > 0:
+				recvArg, name = cc.Args[0], calleeOf(cs).Name()
+			default:
+				continue
+			}
+			fromDefault := false
+			for _, sv := range sources(recvArg) {
+				if ta, ok := sv.(*ssa.TypeAssert); ok {
+					sv = strip(ta.X)
+				}
+				if ex, ok := sv.(*ssa.Extract); ok {
+					if ta, ok := ex.Tuple.(*ssa.TypeAssert); ok {
+						sv = strip(ta.X)
+					}
+				}
+				if g, ok := globalLoad(sv); ok && g.Name() == "defaultLog" {
+					fromDefault = true
+				}
+			}
+			if fromDefault && name != "" {
+				onDefault = append(onDefault, cs)
+			}
+		}
+		if len(onDefault) == 0 {
+			continue
+		}
+		// does the default logger's type have a method of this name?
+		if p.Method(p.Slog, "Entry", fn.Name()) == nil {
+			continue
+		}
+		n++
+		var probs []string
+		for _, cs := range onDefault {
+			name := ""
+			if cs.Common().IsInvoke() {
+				name = cs.Common().Method.Name()
+			} else {
+				name = calleeOf(cs).Name()
+			}
+			if name != fn.Name() {
+				probs = append(probs, fmt.Sprintf("calls %s on the default logger at %s", name, p.Pos(instrPos(cs))))
+			}
+		}
+		r.Check(len(probs) == 0, rule, "namesake:"+fn.Name(), p.FuncPos(fn), "delegates to its namesake on the default logger", "the package-level "+fn.Name()+" does not delegate to the default logger's "+fn.Name()+": "+strings.Join(probs, "; ")+" (the setting lands somewhere else than on the default logger)")
+	}
+	if n == 0 {
+		r.OkTrivial(rule, "namesake:none", "-", "no package-level function with a namesake method delegates to the default logger")
+	}
+}
+
+// messageEmittedAsIs: (R05.10, second half) in the structured modes the text written under the message key is the
+// encoder's message field itself. Every mode-reachable call that passes the message key constant together with a
+// string is judged: over the mode-feasible edges the string is the load of PrintCtx.msg, never the result of a
+// call on it (the colour-markup translator belongs to the colored format only).
+func messageEmittedAsIs(c *Ctx, p *Prog, m *Model, mr *ModeReach, rule string) {
+	r := c.R
+	kv, _, okK := p.Const(p.Slog, "messageFieldName")
+	keyName := ""
+	if okK && kv.Kind() == constant.String {
+		keyName = constant.StringVal(kv)
+	}
+	if keyName == "" {
+		r.Unk(rule, fmt.Sprintf("message-emit[%s]", mr.Mode), "-", "message key constant not found")
+		return
+	}
+	isMsgLoad := func(v ssa.Value) bool {
+		_, ok := isFieldLoadOf(strip(v), "PrintCtx", "msg")
+		return ok
+	}
+	var feasibleVals func(v ssa.Value, fn *ssa.Function, depth int) []ssa.Value
+	feasibleVals = func(v ssa.Value, fn *ssa.Function, depth int) []ssa.Value {
+		ph, ok := v.(*ssa.Phi)
+		if !ok || depth > 4 {
+			return []ssa.Value{v}
+		}
+		var out []ssa.Value
+		for i, e := range ph.Edges {
+			pred := ph.Block().Preds[i]
+			if !mr.Blocks[fn][pred] {
+				continue
+			}
+			feas := false
+			for _, sx := range feasibleSuccs(pred, mr.Mode) {
+				if sx == ph.Block() {
+					feas = true
+				}
+			}
+			if feas {
+				out = append(out, feasibleVals(e, fn, depth+1)...)
+			}
+		}
+		return out
+	}
+	n := 0
+	for _, fn := range mr.Funcs() {
+		for _, cs := range callsIn(fn) {
+			if !mr.Blocks[fn][cs.Block()] {
+				continue
+			}
+			args := cs.Common().Args
+			hasKey := false
+			for _, a := range args {
+				if sx, ok := constString(a); ok && sx == keyName {
+					hasKey = true
+				}
+			}
+			if !hasKey {
+				continue
+			}
+			for _, a := range args {
+				if !isStringT(a.Type()) {
+					continue
+				}
+				if _, isC := constString(a); isC {
+					continue
+				}
+				n++
+				var bad []string
+				for _, v := range feasibleVals(a, fn, 0) {
+					if !isMsgLoad(v) {
+						bad = append(bad, m.valDesc(v))
+					}
+				}
+				key := fmt.Sprintf("message-emit[%s]:%s", mr.Mode, shortName(fn))
+				r.Check(len(bad) == 0, rule, key, p.Pos(instrPos(cs)), "the text written under the message key is the message field itself", fmt.Sprintf("in %s mode the text written under the message key is %s, not the message as logged (tags and entities in it are rewritten or dropped)", mr.Mode, strings.Join(dedupStr(bad), ", ")))
+			}
+		}
+	}
+	if n == 0 {
+		r.Unk(rule, fmt.Sprintf("message-emit[%s]", mr.Mode), "-", "no emission under the message key found in %s mode", mr.Mode)
+	}
+}
+
+// ---- the configured tag width is taken for every width of the domain (C06 R06.3) --------------------------------------
+//
+// Every function that stores one of its integer parameters into the package-level tag width is walked with that
+// parameter bound to each of 1..5 (comparisons against constants fold): the store must be reached for each of them.
+func tagWidthSetter(c *Ctx, p *Prog) {
+	r := c.R
+	n := 0
+	for _, fn := range p.RepoFuncs() {
+		if fn.Pkg != p.Slog || p.startupOnly(fn) {
+			continue
+		}
+		for _, gs := range globalStores(fn) {
+			if nm(gs.G) != "levelOutputWidth" || gs.Kind != "store" {
+				continue
+			}
+			prm, ok := strip(gs.Val).(*ssa.Parameter)
+			if !ok {
+				continue
+			}
+			n++
+			var missing []string
+			for k := int64(1); k <= 5; k++ {
+				subst := map[ssa.Value]ssa.Value{prm: ssa.NewConst(constant.MakeInt64(k), prm.Type())}
+				reached := false
+				t := walkDecisionInl(fn.Blocks[0], map[string]bool{}, func(ssa.Value) (string, bool) { return "", false },
+					func(in ssa.Instruction) (string, bool) {
+						if in == gs.Instr {
+							reached = true
+							return "store", true
+						}
+						return "", false
+					}, func(ssa.CallInstruction) *ssa.Function { return nil }, subst, 0)
+				if !reached {
+					missing = append(missing, fmt.Sprintf("%d (%s)", k, t.Kind))
+				}
+			}
+			r.Check(len(missing) == 0, "R06.3", "tag-width:"+shortName(fn), p.Pos(instrPos(gs.Instr)), "every width 1..5 is stored", "the tag width given is not stored for width "+strings.Join(missing, ", ")+": records keep the previous width")
+		}
+	}
+	if n == 0 {
+		r.Unk("R06.3", "tag-width:setter", "-", "no function stores its parameter into the tag width")
+	}
 }
